@@ -59,7 +59,7 @@ var (
 )
 
 func cpNames(more bool) []string {
-	n := []string{"a", "debian-binary", "0123456789abcdef", "0123456789abcde/", "x/", "a b/", "a/b"}
+	n := []string{"a", "debian-binary", "0123456789abcdef", "0123456789abcde/", "x/", "a b/", "a/b", "r.\xe9s", "data.ȺȺȺȺȺ", strings.Repeat("\xff", 16)}
 	if more {
 		n = append(n, "a b", "e.tar.gz")
 	}
@@ -417,7 +417,7 @@ func Run(r *mc.Run) {
 	const chunk = 64
 	nSh := (len(archs) + chunk - 1) / chunk
 	r.Scenario("archives-all", map[string]interface{}{"member_shapes": len(sh), "members": fmt.Sprintf("0..%d", maxN), "archives": len(archs),
-		"readerat_conventions": 2, "schedules_per_archive": 3},
+		"reader_kinds": gen.ArmReaderKinds, "schedules_per_archive": 3},
 		nSh, func(shard int, st *mc.Stats) bool {
 			lim := limiter{}
 			for ai := shard * chunk; ai < (shard+1)*chunk && ai < len(archs); ai++ {
@@ -425,7 +425,7 @@ func Run(r *mc.Run) {
 				b := gen.ArmBuild(ms)
 				exp := expectAll(ms)
 				nt := nontrivial(ms)
-				for conv := 0; conv < 2; conv++ {
+				for conv := 0; conv < len(gen.ArmReaderKinds); conv++ {
 					for si, ops := range schedules(len(ms)) {
 						i, f := runOps(b, exp, conv, ops)
 						st.Evals++
@@ -441,7 +441,7 @@ func Run(r *mc.Run) {
 							}
 							_ = i
 						} else {
-							st.Class(fmt.Sprintf("ok members=%d conv=%d", len(ms), conv))
+							st.Class(fmt.Sprintf("ok members=%d reader=%d", len(ms), conv))
 						}
 						if ai%577 == 0 && conv == 1 && si == 1 && st.WantSample() {
 							st.Sample(map[string]interface{}{"archive_hex": fmt.Sprintf("%x", b), "conv": conv, "ops": fmt.Sprint(ops)})
